@@ -1,14 +1,489 @@
-"""C04 - wire format (filled in below; files_roundtrip_names is shared with C18)."""
+"""C04 - wire format: every message round-trips and is claimed by exactly its verb.
+
+Deciding method: /repo's own builders are interpreted (vlib.absint) with SYMBOLIC field
+values; the resulting symbolic byte string (vlib.symbytes) is fed to /repo's own
+can_handle of every handler class (exclusivity) and to its own decoder, whose decoded
+attributes are compared bit-by-bit with the field symbols.  One evaluation covers all
+field values.  Framing regex, reply addressing, text parts and codec are decided by
+constant folding + regex-AST inspection + interpretation of the split/unpack shape.
+"""
 from __future__ import annotations
 
-from ..absint import Interp, Obj, PyRaise, Undecided
+import ast
+import re
+
+from ..absint import BV, BoundMethod, EnumMember, Interp, Native, Obj, Opaque, PyRaise, Undecided
 from ..core import AnalysisError
+from ..facts import loc
+from ..src import Repo, Unfoldable, call_name, walk_no_nested
+from ..symbytes import Blob, LenSym, SymBytes, bv_equals_field, field, sfield
+
+BASE = "GeckoUdpProtocolHandler"
+SENDER = ("10.1.2.3", 10022)
+# twins / catch-alls that legitimately accept the same traffic, with reason
+OVERLAP_OK = {
+    frozenset(("GeckoPartialStatusBlockProtocolHandler", "GeckoAsyncPartialStatusBlockProtocolHandler")):
+        "blocking and awaitable twin of the same STATP/STATQ conversation; never registered on the same connection",
+}
+CATCH_ALL = {"GeckoUnhandledProtocolHandler": "discard consumer: accepts everything by design, runs last (C07)"}
+
+
+def F(name, bits):
+    return field(name, bits)
 
 
 def build_message(repo, interp, cname, builder, args, kwargs=None):
-    """Interpret static builder cname.builder(*args) of /repo and return the handler Obj."""
     fi = repo.method(cname, builder)
+    interp.steps = 0
     return interp.call(fi, None, list(args), dict(kwargs or {}))
+
+
+def new_handler(repo, interp, cname, args=(), kwargs=None):
+    cls = repo.cls(cname)
+    from ..absint import ClassRef
+    interp.steps = 0
+    return interp.apply(ClassRef(cls), list(args), dict(kwargs or {}))
+
+
+def wire_of(msg):
+    c = msg.attrs.get("_content")
+    if c is None:
+        c = msg.attrs.get("_send_bytes")
+    return c
+
+
+# (class, builder, args-thunk, {decoded attr: expected}, description)
+def message_table():
+    rem = [(1, sfield("days0", 16)), (3, sfield("days1", 16))]
+    ch = [(F("pos0", 16), SymBytes.pack(">H", [F("w0", 16)])), (F("pos1", 16), SymBytes.pack(">H", [F("w1", 16)]))]
+    return [
+        ("GeckoPingProtocolHandler", "request", [], {}, "APING"),
+        ("GeckoPingProtocolHandler", "response", [], {"_sequence": 0}, "APING reply"),
+        ("GeckoVersionProtocolHandler", "request", [F("seq", 8)], {"_sequence": ("seq", 8)}, "AVERS"),
+        ("GeckoVersionProtocolHandler", "response", [(F("enb", 16), F("enM", 8), F("enm", 8)), (F("cob", 16), F("coM", 8), F("com", 8))],
+         {"en_build": ("enb", 16), "en_major": ("enM", 8), "en_minor": ("enm", 8), "co_build": ("cob", 16), "co_major": ("coM", 8), "co_minor": ("com", 8)}, "SVERS"),
+        ("GeckoGetChannelProtocolHandler", "request", [F("seq", 8)], {"_sequence": ("seq", 8)}, "CURCH"),
+        ("GeckoGetChannelProtocolHandler", "response", [F("chan", 8), F("sig", 8)], {"channel": ("chan", 8), "signal_strength": ("sig", 8)}, "CHCUR"),
+        ("GeckoConfigFileProtocolHandler", "request", [F("seq", 8)], {"_sequence": ("seq", 8)}, "SFILE"),
+        ("GeckoStatusBlockProtocolHandler", "request", [F("seq", 8), F("start", 16), F("length", 16)],
+         {"sequence": ("seq", 8), "start": ("start", 16), "length": ("length", 16)}, "STATU"),
+        ("GeckoStatusBlockProtocolHandler", "full_request", [F("seq", 8)], {"sequence": ("seq", 8), "start": 0, "length": 1024}, "STATU full"),
+        ("GeckoStatusBlockProtocolHandler", "response", [F("idx", 8), F("nxt", 8), SymBytes.blob("block")],
+         {"sequence": ("idx", 8), "next": ("nxt", 8), "length": ("len", "block"), "data": ("blob", "block")}, "STATV"),
+        ("GeckoPackCommandProtocolHandler", "set_value", [F("seq", 8), F("pt", 8), F("cv", 8), F("lv", 8), F("pos", 16), 1, F("val", 8)],
+         {"_sequence": ("seq", 8), "pack_type": ("pt", 8), "position": ("pos", 16), "is_set_value": True, "is_key_press": False,
+          "new_data": ("bytes", SymBytes.pack(">B", [F("val", 8)]))}, "SPACK set 1 byte"),
+        ("GeckoPackCommandProtocolHandler", "set_value", [F("seq", 8), F("pt", 8), F("cv", 8), F("lv", 8), F("pos", 16), 2, F("val", 16)],
+         {"_sequence": ("seq", 8), "pack_type": ("pt", 8), "position": ("pos", 16), "is_set_value": True,
+          "new_data": ("bytes", SymBytes.pack(">H", [F("val", 16)]))}, "SPACK set 2 bytes"),
+        ("GeckoPackCommandProtocolHandler", "keypress", [F("seq", 8), F("pt", 8), F("key", 8)],
+         {"_sequence": ("seq", 8), "pack_type": ("pt", 8), "keycode": ("key", 8), "is_key_press": True, "is_set_value": False}, "SPACK key"),
+        ("GeckoPackCommandProtocolHandler", "response", [], {"_should_remove_handler": True}, "PACKS"),
+        ("GeckoWatercareProtocolHandler", "request", [F("seq", 8)], {"_sequence": ("seq", 8), "schedule": False}, "GETWC"),
+        ("GeckoWatercareProtocolHandler", "set", [F("seq", 8), F("mode", 8)], {"_sequence": ("seq", 8), "mode": ("mode", 8)}, "SETWC"),
+        ("GeckoWatercareProtocolHandler", "response", [F("mode", 8)], {"mode": ("mode", 8), "_should_remove_handler": True}, "WCGET"),
+        ("GeckoWatercareProtocolHandler", "giveschedule", [], {"_should_remove_handler": True}, "WCREQ"),
+        ("GeckoRemindersProtocolHandler", "request", [F("seq", 8)], {"_sequence": ("seq", 8)}, "REQRM"),
+        ("GeckoRemindersProtocolHandler", "response", [rem], {"reminders": ("reminders", [(1, "days0"), (3, "days1")])}, "RMREQ"),
+        ("GeckoUpdateFirmwareProtocolHandler", "request", [F("seq", 8)], {"_sequence": ("seq", 8)}, "UPDTS"),
+        ("GeckoUpdateFirmwareProtocolHandler", "response", [], {"_should_remove_handler": True}, "SUPDT"),
+        ("GeckoRFErrProtocolHandler", "response", [], {"_error_count": 1}, "RFERR"),
+        ("GeckoPartialStatusBlockProtocolHandler", "report_changes", [None, ch],
+         {"changes": ("changes", [("pos0", "w0"), ("pos1", "w1")])}, "STATP"),
+        ("GeckoHelloProtocolHandler", "broadcast", [], {"was_broadcast_discovery": True}, "HELLO 1"),
+        ("GeckoHelloProtocolHandler", "client", [b"IOS02ac6d28"], {"_client_identifier": b"IOS02ac6d28", "was_broadcast_discovery": False}, "HELLO client"),
+        ("GeckoHelloProtocolHandler", "response", [b"SPA01:02:03:04:05:06", "My Spa"],
+         {"_spa_identifier": b"SPA01:02:03:04:05:06", "_spa_name": "My Spa"}, "HELLO reply"),
+    ]
+
+
+def compare(exp, got):
+    """-> (ok, message)"""
+    if isinstance(exp, tuple) and len(exp) == 2 and isinstance(exp[0], str) and isinstance(exp[1], int):
+        return bv_equals_field(got, exp[0], exp[1])
+    if isinstance(exp, tuple) and exp[0] == "len":
+        return (isinstance(got, LenSym) and got.blob == exp[1] and got.k == 0), f"decoded {got!r}, expected len({exp[1]})"
+    if isinstance(exp, tuple) and exp[0] == "blob":
+        ok = isinstance(got, SymBytes) and got.cells == [Blob(exp[1])]
+        return ok, f"decoded payload {got!r}, expected exactly the {exp[1]} payload"
+    if isinstance(exp, tuple) and exp[0] == "bytes":
+        ok = isinstance(got, SymBytes) and got.cells == exp[1].cells
+        return ok, f"decoded bytes {got!r}, expected {exp[1]!r}"
+    if isinstance(exp, tuple) and exp[0] == "reminders":
+        if not isinstance(got, list) or len(got) != len(exp[1]):
+            return False, f"decoded {got!r}"
+        for (t, dn), g in zip(exp[1], got):
+            if not (isinstance(g, tuple) and len(g) == 2 and isinstance(g[0], EnumMember) and g[0].value == t):
+                return False, f"reminder type decoded as {g!r}, expected type {t}"
+            ok, msg = bv_equals_field(g[1], dn, 16, signed=True)
+            if not ok:
+                return False, f"reminder days: {msg}"
+        return True, ""
+    if isinstance(exp, tuple) and exp[0] == "changes":
+        if not isinstance(got, list) or len(got) != len(exp[1]):
+            return False, f"decoded {len(got) if isinstance(got, list) else got!r} change records, expected {len(exp[1])}"
+        for (pn, wn), g in zip(exp[1], got):
+            ok, msg = bv_equals_field(g[0], pn, 16)
+            if not ok:
+                return False, f"change position: {msg}"
+            want = SymBytes.pack(">H", [F(wn, 16)]).cells
+            if not (isinstance(g[1], SymBytes) and g[1].cells == want):
+                return False, f"change data decoded as {g[1]!r}"
+        return True, ""
+    if isinstance(got, BV):
+        return False, f"decoded a symbolic value where constant {exp!r} expected"
+    return got == exp, f"decoded {got!r}, expected {exp!r}"
+
+
+def handler_classes(repo):
+    return sorted([c for c in repo.subclasses(BASE) if "can_handle" in {m for k in repo.mro(c) for m in k.methods}
+                   and c.mod.rel.startswith("src/geckolib/driver/protocol/")], key=lambda c: c.short)
+
+
+def fresh_handler(repo, interp, c, sock=None):
+    if c.short in ("GeckoPartialStatusBlockProtocolHandler", "GeckoAsyncPartialStatusBlockProtocolHandler"):
+        return new_handler(repo, interp, c.short, [sock])
+    if c.short == "GeckoHelloProtocolHandler":
+        return new_handler(repo, interp, c.short, [b"1"])
+    return new_handler(repo, interp, c.short)
+
+
+def can_handle(repo, interp, c, obj, wire):
+    fi = repo.method(c.short, "can_handle")
+    interp.steps = 0
+    r = interp.call(fi, obj, [wire, SENDER])
+    if not isinstance(r, bool):
+        raise Undecided(f"can_handle returned {r!r}")
+    return r
+
+
+def round_trips(ctx, repo):
+    interp = Interp(repo, max_depth=10)
+    classes = handler_classes(repo)
+    ctx.floor("R1", "handler classes", len(classes), 12)
+    table = message_table()
+    # every static builder of every handler class must be in the table (exhaustiveness)
+    builders = set()
+    for c in classes:
+        for nm, m in c.methods.items():
+            if m.is_static and not nm.startswith("_") and nm not in ("broadcast_address",):
+                builders.add((c.short, nm))
+    covered = {(c, b) for c, b, *_ in table} | {("GeckoConfigFileProtocolHandler", "response")}  # FILES: R6, all 895 combos
+    for b in sorted(builders - covered):
+        ctx.ob("R2", f"{b[0]}.{b[1]}::in-table", False, f"builder {b[0]}.{b[1]} is not covered by the round-trip table (new message kind: add it to the analysis)", repo.method(*b).loc)
+    ctx.floor("R2", "message builders", len(builders), 24)
+
+    socks = {}
+    verbs_emitted = {}
+    for cname, builder, args, expect, desc in table:
+        key = f"{cname}.{builder}[{desc}]"
+        bfi = repo.method(cname, builder, required=False)
+        if bfi is None:
+            ctx.error(f"builder {cname}.{builder} vanished")
+            continue
+        try:
+            msg = build_message(repo, interp, cname, builder, args)
+        except PyRaise as e:
+            ctx.ob("R2", f"{key}::builds", False, f"{cname}.{builder} raises {e.what} for in-range field values", bfi.loc)
+            continue
+        except Undecided as e:
+            raise AnalysisError(f"{key}: cannot interpret the builder: {e}")
+        wire = wire_of(msg)
+        if wire is None:
+            ctx.ob("R2", f"{key}::builds", False, f"{cname}.{builder} produced no content", bfi.loc)
+            continue
+        wire = SymBytes.of(wire)
+        verb = bytes(c for c in wire.cells[:7] if isinstance(c, int))
+        verb = verb[:5] if not verb.startswith(b"<") else verb
+        if wire.concrete() is not None:
+            wire = wire.concrete()
+        verbs_emitted[key] = verb
+        # R1: accepted by exactly its own class
+        accept = []
+        for c in classes:
+            if c.short in CATCH_ALL:
+                continue
+            try:
+                obj = fresh_handler(repo, interp, c)
+                if can_handle(repo, interp, c, obj, wire):
+                    accept.append(c.short)
+            except (Undecided, PyRaise) as e:
+                raise AnalysisError(f"{c.short}.can_handle on {desc}: {e}")
+        own = cname in accept
+        ctx.ob("R1", f"{key}::accepted-by-own-handler", own,
+               f"message {desc} ({verb!r}) built by {cname}.{builder} is accepted by no handler of its own class (accepted by: {accept or 'nobody'}): the peer cannot receive it",
+               bfi.loc, sample={"rule": "R1", "message": desc, "verb": verb.decode("latin1"), "accepted_by": accept})
+        others = [a for a in accept if a != cname and frozenset((a, cname)) not in OVERLAP_OK]
+        ctx.ob("R1", f"{key}::exclusive", not others, f"message {desc} is also claimed by {others}", bfi.loc)
+        if not own:
+            continue
+        # R2: decode and compare
+        c = repo.cls(cname)
+        captured = []
+        sock = Obj(None, {
+            "queue_send": Native(lambda a, k: captured.append(a)),
+            "get_and_increment_sequence_counter": Native(lambda a, k: F("ackseq", 8) if a == [False] else F("BADKIND", 8)),
+        }, name="socket")
+        try:
+            rx = fresh_handler(repo, interp, c, sock)
+            hfi = repo.method(cname, "handle")
+            interp.steps = 0
+            interp.call(hfi, rx, [wire, SENDER])
+        except PyRaise as e:
+            ctx.ob("R2", f"{key}::decodes", False, f"{cname}.handle raises {e.what} on the message built by {builder} ({desc})", repo.method(cname, "handle").loc)
+            continue
+        except Undecided as e:
+            raise AnalysisError(f"{key}: cannot interpret the decoder: {e}")
+        for attr, exp in expect.items():
+            got = rx.attrs.get(attr, "<unset>")
+            ok, why = compare(exp, got)
+            ctx.ob("R2", f"{key}::{attr}", ok,
+                   f"{desc}: field `{attr}` does not round-trip through {cname}.{builder} -> handle: {why}", repo.method(cname, "handle").loc,
+                   sample={"rule": "R2", "message": desc, "field": attr, "ok": ok} if attr in ("sequence", "position", "reminders") else None)
+        if builder == "report_changes":
+            # the acknowledgement the decoder sent
+            ok = len(captured) == 1
+            why = f"{len(captured)} acknowledgements"
+            if ok:
+                ack = wire_of(captured[0][0])
+                ack = SymBytes.of(ack)
+                want = SymBytes.of(b"STATQ") + SymBytes.pack(">B", [F("ackseq", 8)])
+                ok = ack.cells == want.cells
+                why = f"acknowledgement is {ack!r}"
+                # and it decodes with the same class
+                rx2 = fresh_handler(repo, interp, c, sock)
+                interp.call(repo.method(cname, "handle"), rx2, [ack, SENDER])
+                ok2, why2 = bv_equals_field(rx2.attrs.get("sequence"), "ackseq", 8)
+                ctx.ob("R2", f"{key}::ack-decodes", ok2, f"STATQ acknowledgement does not decode to its sequence: {why2}", repo.method(cname, "handle").loc)
+            ctx.ob("R2", f"{key}::ack-layout", ok, f"STATP acknowledgement: {why}", repo.method(cname, "handle").loc)
+    # async partial handler decodes the same STATP
+    try:
+        msg = build_message(repo, interp, "GeckoPartialStatusBlockProtocolHandler", "report_changes", [None, message_table()[23][2][1]])
+        wire = SymBytes.of(wire_of(msg))
+        captured = []
+        proto = Obj(None, {"queue_send": Native(lambda a, k: captured.append(a)),
+                           "get_and_increment_sequence_counter": Native(lambda a, k: F("ackseq", 8))})
+        rx = new_handler(repo, interp, "GeckoAsyncPartialStatusBlockProtocolHandler", [proto])
+        interp.call(repo.method("GeckoAsyncPartialStatusBlockProtocolHandler", "async_handle"), rx, [wire, SENDER])
+        ok, why = compare(("changes", [("pos0", "w0"), ("pos1", "w1")]), rx.attrs.get("changes"))
+        ctx.ob("R2", "GeckoAsyncPartialStatusBlockProtocolHandler.async_handle::changes", ok, f"async STATP decode: {why}")
+    except (PyRaise, Undecided) as e:
+        raise AnalysisError(f"async STATP decode: {e}")
+    return verbs_emitted
+
+
+def verb_table(ctx, repo):
+    """R1a: every *_VERB constant is 5 bytes and decoders slice exactly that much."""
+    verbs = {}
+    for m in repo.all_mods():
+        if "/driver/protocol/" not in m.rel:
+            continue
+        for nm, ex in m.consts.items():
+            if nm.endswith("_VERB"):
+                v = repo.try_fold(ex, m)
+                verbs[nm] = v
+                ctx.ob("R1", f"verb::{nm}", isinstance(v, bytes) and len(v) == 5, f"{nm} = {v!r} is not a 5-byte verb", m.rel)
+    ctx.floor("R1", "verb constants", len(verbs), 20)
+    vals = [v for v in verbs.values() if isinstance(v, bytes)]
+    ctx.ob("R1", "verbs::distinct", len(set(vals)) == len(vals), "two verb constants have the same value")
+    n = 0
+    for c in handler_classes(repo):
+        for hn in ("handle", "async_handle"):
+            h = c.methods.get(hn)
+            if h is None:
+                continue
+            for node in ast.walk(h.node):
+                if isinstance(node, ast.Assign) and isinstance(node.value, ast.Subscript) and ast.unparse(node.value.value) == "received_bytes":
+                    sl = node.value.slice
+                    if isinstance(sl, ast.Slice) and sl.upper is None and sl.lower is not None and ast.unparse(node.targets[0]) == "remainder":
+                        n += 1
+                        ctx.ob("R1", f"{h.qual}::verb-offset", repo.try_fold(sl.lower) == 5, f"{h.qual}: payload sliced at {ast.unparse(sl.lower)}, verbs are 5 bytes", loc(h, node))
+    ctx.floor("R1", "payload slice sites", n, 10)
+    return verbs
+
+
+def framing(ctx, repo):
+    interp = Interp(repo, max_depth=8)
+    cname = "GeckoPacketProtocolHandler"
+    m = repo.mod("driver/protocol/packet.py")
+    tags = {k: repo.try_fold(v, m) for k, v in m.consts.items() if k.endswith("_OPEN") or k.endswith("_CLOSE")}
+    # R4 (iii): send_bytes layout with symbolic identifiers and payload
+    msg = new_handler(repo, interp, cname, [], {"parms": ("ip", 1, SymBytes.blob("P2"), SymBytes.blob("P3")), "content": SymBytes.blob("payload")})
+    sb = interp.call(repo.method(cname, "send_bytes"), msg, [])
+    cells = SymBytes.of(sb).cells
+
+    def between(open_, close_):
+        o, c = list(tags[open_]), list(tags[close_])
+        for i in range(len(cells)):
+            if cells[i:i + len(o)] == o:
+                j = i + len(o)
+                k = j
+                while k < len(cells) and cells[k:k + len(c)] != c:
+                    k += 1
+                return cells[j:k]
+        return None
+
+    src, dst, dat = between("SRCCN_OPEN", "SRCCN_CLOSE"), between("DESCN_OPEN", "DESCN_CLOSE"), between("DATAS_OPEN", "DATAS_CLOSE")
+    sfi = repo.method(cname, "send_bytes")
+    ctx.ob("R4", "send_bytes::source-is-parms3", src == [Blob("P3")], f"send_bytes puts {src} between the SRCCN tags, expected parms[3] (our own identifier as received in DESCN)", sfi.loc,
+           sample={"rule": "R4", "SRCCN": repr(src), "DESCN": repr(dst), "DATAS": repr(dat)})
+    ctx.ob("R4", "send_bytes::destination-is-parms2", dst == [Blob("P2")], f"send_bytes puts {dst} between the DESCN tags, expected parms[2] (the peer's identifier as received in SRCCN)", sfi.loc)
+    ctx.ob("R4", "send_bytes::payload", dat == [Blob("payload")], f"send_bytes puts {dat} between the DATAS tags", sfi.loc)
+    want_outer = list(tags["PACKET_OPEN"])
+    ctx.ob("R4", "send_bytes::packet-tags", cells[:len(want_outer)] == want_outer and cells[-len(tags["PACKET_CLOSE"]):] == list(tags["PACKET_CLOSE"]),
+           "send_bytes is not wrapped in <PACKT>..</PACKT>", sfi.loc)
+    order = [i for i, c in enumerate(cells) if isinstance(c, Blob)]
+    ctx.ob("R4", "send_bytes::section-order", [cells[i].name for i in order] == ["P3", "P2", "payload"], "sections are not in the order SRCCN, DESCN, DATAS", sfi.loc)
+    # R4 (ii): handle stores (ip, port, group1, group2)
+    rx = new_handler(repo, interp, cname)
+    sliced = []
+
+    def hook(ip, node, callee, args, kwargs):
+        if isinstance(callee, BoundMethod) and callee.fi.name == "_extract_packet_parts":
+            sliced.append(args[0])
+            return (SymBytes.blob("G1"), SymBytes.blob("G2"), SymBytes.blob("G3"))
+        return NotImplemented
+
+    interp.call_hook = hook
+    wire = SymBytes.of(tags["PACKET_OPEN"]) + SymBytes.blob("inner") + SymBytes.of(tags["PACKET_CLOSE"])
+    interp.call(repo.method(cname, "handle"), rx, [wire, ("1.2.3.4", 99)])
+    interp.call_hook = None
+    hfi = repo.method(cname, "handle")
+    p = rx.attrs.get("_parms")
+    ok = isinstance(p, tuple) and len(p) == 4 and p[0] == "1.2.3.4" and p[1] == 99 and p[2] == SymBytes.blob("G1") and p[3] == SymBytes.blob("G2")
+    ctx.ob("R4", "handle::parms-orientation", ok, f"handle stores parms {p!r}, expected (sender ip, sender port, <SRCCN group>, <DESCN group>)", hfi.loc)
+    ctx.ob("R4", "handle::content", rx.attrs.get("_packet_content") == SymBytes.blob("G3"), "handle does not keep the DATAS group as packet content", hfi.loc)
+    ctx.ob("R4", "handle::strips-packet-tags", bool(sliced) and SymBytes.of(sliced[0]).cells == [Blob("inner")],
+           f"handle passes {sliced[0] if sliced else None!r} to the extractor instead of the bytes between <PACKT> and </PACKT>", hfi.loc)
+    # swap: reply with parms=<received parms> => SRCCN = received DESCN, DESCN = received SRCCN  (follows from the two facts above)
+
+    # R4 (i) + R5: the regex
+    efi = repo.method(cname, "_extract_packet_parts")
+    pat = None
+    flags = None
+    for n in ast.walk(efi.node):
+        if isinstance(n, ast.Call) and ast.unparse(n.func) in ("re.search", "re.match", "re.fullmatch"):
+            pat = repo.try_fold(n.args[0], efi.mod)
+            flags = [ast.unparse(a) for a in n.args[2:]] + [ast.unparse(k.value) for k in n.keywords if k.arg == "flags"]
+    if not isinstance(pat, bytes):
+        raise AnalysisError("framing regex is not a constant pattern")
+    ctx.ob("R5", "regex::dotall", any("DOTALL" in f or f.endswith("re.S") for f in flags or []),
+           "framing regex is compiled without re.DOTALL: payloads containing a newline byte do not match", efi.loc)
+    import re._parser as sre
+    tree = sre.parse(pat.decode("latin1"))
+    seq = []
+    lit = ""
+    for op, av in tree:
+        if str(op) == "LITERAL":
+            lit += chr(av)
+        else:
+            if lit:
+                seq.append(("lit", lit))
+                lit = ""
+            if str(op) == "SUBPATTERN":
+                inner = av[3]
+                kind = "?"
+                if len(inner) == 1 and str(inner[0][0]) in ("MAX_REPEAT", "MIN_REPEAT"):
+                    lazy = str(inner[0][0]) == "MIN_REPEAT"
+                    body = inner[0][1][2]
+                    if len(body) == 1 and str(body[0][0]) == "ANY":
+                        kind = "lazy-any" if lazy else "greedy-any"
+                    elif len(body) == 1 and str(body[0][0]) == "IN":
+                        kind = "class"
+                seq.append(("group", kind))
+            else:
+                seq.append(("other", str(op)))
+    if lit:
+        seq.append(("lit", lit))
+    lits = [v for k, v in seq if k == "lit"]
+    want = [(tags["SRCCN_OPEN"]), (tags["SRCCN_CLOSE"] + tags["DESCN_OPEN"]), (tags["DESCN_CLOSE"] + tags["DATAS_OPEN"]), tags["DATAS_CLOSE"]]
+    ctx.ob("R4", "regex::group-order", [l.encode("latin1") for l in lits] == want and [k for k, v in seq] == ["lit", "group", "lit", "group", "lit", "group", "lit"],
+           f"framing regex skeleton {seq} is not SRCCN(group)DESCN(group)DATAS(group)", efi.loc)
+    groups = [v for k, v in seq if k == "group"]
+    ctx.floor("R5", "regex groups", len(groups), 3)
+    for i, gk in enumerate(groups[:-1]):
+        ctx.ob("R5", f"regex::group{i + 1}-cannot-overrun", gk in ("lazy-any", "class"),
+               f"capture group {i + 1} of the framing regex is greedy `(.*)` although more unconstrained groups follow: a DATAS payload containing "
+               f"`{(lits[i + 1] if i + 1 < len(lits) else '')}` moves the split point into the payload, so identifiers and content decode to something other than what was sent",
+               efi.loc, sample={"rule": "R5", "pattern": pat.decode("latin1"), "groups": groups})
+    if groups:
+        ctx.ob("R5", "regex::last-group-greedy", groups[-1] == "greedy-any",
+               "the DATAS group is not greedy: a payload containing </DATAS> would be truncated", efi.loc)
+    # no-match => (None, None, None)
+    return tags
+
+
+def text_parts(ctx, repo):
+    """R6: fixed-arity unpacking of an unbounded split; witness via interpretation."""
+    interp = Interp(repo, max_depth=8)
+    n_sites = 0
+    for c in handler_classes(repo):
+        for h in c.methods.values():
+            for n in walk_no_nested(h.node):
+                if isinstance(n, ast.Assign) and isinstance(n.targets[0], (ast.Tuple, ast.List)) and isinstance(n.value, ast.Call) and call_name(n.value) == "split":
+                    n_sites += 1
+                    arity = len(n.targets[0].elts)
+                    call = n.value
+                    maxsplit = None
+                    if len(call.args) >= 2:
+                        maxsplit = repo.try_fold(call.args[1])
+                    for kw in call.keywords:
+                        if kw.arg == "maxsplit":
+                            maxsplit = repo.try_fold(kw.value)
+                    ctx.ob("R6", f"{h.qual}::split-arity", maxsplit == arity - 1,
+                           f"{h.qual}: `{ast.unparse(n)}` unpacks an unbounded split into {arity} targets: a value containing the separator "
+                           f"{ast.unparse(call.args[0]) if call.args else ''} (e.g. a spa name with '|') raises ValueError instead of decoding", loc(h, n))
+    ctx.floor("R6", "fixed-arity split sites", n_sites, 1)
+    # witnesses: names with separator / latin-1 characters
+    cname = "GeckoHelloProtocolHandler"
+    for name in ("My|Spa", "Café über", "a|b|c"):
+        key = f"hello-reply::{name.encode('unicode_escape').decode()}"
+        try:
+            msg = build_message(repo, interp, cname, "response", [b"SPA01:02:03:04:05:06", name])
+            rx = new_handler(repo, interp, cname, [b"1"])
+            interp.steps = 0
+            interp.call(repo.method(cname, "handle"), rx, [wire_of(msg), SENDER])
+            ok = rx.attrs.get("_spa_identifier") == b"SPA01:02:03:04:05:06" and rx.attrs.get("_spa_name") == name
+            why = f"decoded ({rx.attrs.get('_spa_identifier')!r}, {rx.attrs.get('_spa_name')!r})"
+        except PyRaise as e:
+            ok, why = False, f"decoder raises {e.what}"
+        except Undecided as e:
+            raise AnalysisError(f"hello reply: {e}")
+        ctx.ob("R6", key, ok, f"HELLO reply for spa name {name!r}: {why}", repo.method(cname, "handle").loc)
+
+
+def codec(ctx, repo):
+    enc = repo.try_fold(ast.parse("GeckoConstants.MESSAGE_ENCODING", mode="eval").body)
+    import codecs
+    ok = False
+    try:
+        ci = codecs.lookup(enc)
+        ok = ci.name in ("iso8859-1", "latin-1", "latin1")
+    except Exception:
+        pass
+    ctx.ob("R7", "MESSAGE_ENCODING::single-byte-total", ok,
+           f"GeckoConstants.MESSAGE_ENCODING = {enc!r} is not latin-1: not every byte value decodes (identifiers and names are arbitrary bytes)")
+    n = 0
+    for fi in repo.all_functions():
+        if "/utils/" in fi.mod.rel:
+            continue
+        for node in walk_no_nested(fi.node):
+            if isinstance(node, ast.Call) and call_name(node) in ("encode", "decode") and isinstance(node.func, ast.Attribute):
+                n += 1
+                a = [ast.unparse(x) for x in node.args] + [ast.unparse(k.value) for k in node.keywords]
+                ctx.ob("R7", f"{fi.qual}::{call_name(node)}-{_nth(fi, node)}", any(x.endswith("MESSAGE_ENCODING") for x in a),
+                       f"{fi.qual}: `{ast.unparse(node)[:70]}` does not use GeckoConstants.MESSAGE_ENCODING (default utf-8 cannot carry arbitrary bytes)", loc(fi, node))
+    ctx.floor("R7", "encode/decode sites", n, 8)
+
+
+def _nth(fi, node):
+    i = 0
+    for n in walk_no_nested(fi.node):
+        if isinstance(n, ast.Call) and call_name(n) in ("encode", "decode"):
+            if n is node:
+                return i
+            i += 1
+    return i
 
 
 def files_roundtrip_names(ctx, repo, T, rule="R6"):
@@ -55,3 +530,24 @@ def files_roundtrip_names(ctx, repo, T, rule="R6"):
                sample={"rule": rule, "combo": key, "wire": content.decode("latin1"), "decoded": [plat, cv, lv]} if n % 200 == 1 else None)
     ctx.count("files_reply_round_trips", n)
     ctx.floor(rule, "platform x cfg x log combinations", n + bad, 600)
+
+
+def check(ctx):
+    repo = Repo()
+    ctx.rule("R1", "verb table & exclusivity: 5-byte distinct verbs, decoders slice 5; every message any builder can emit is accepted by its own handler class and by no other (twins/catch-all tabled)")
+    ctx.rule("R2", "constructor <-> decoder agreement per message kind by symbolic round trip: decode(build(fields)) == fields bit-for-bit for all field values (struct formats, offsets, byte order, signedness, payload slices)")
+    ctx.rule("R4", "reply addressing: send_bytes puts parms[3] in SRCCN and parms[2] in DESCN; handle stores (ip, port, SRCCN group, DESCN group): a reply built from received parms goes back to the sender with identifiers swapped")
+    ctx.rule("R5", "framing regex unambiguous: DOTALL; every capture group followed by another unconstrained group is lazy/excluding; last group greedy")
+    ctx.rule("R6", "text parts: fixed-arity unpack of split needs maxsplit; HELLO replies with '|' / latin-1 names decode; FILES reply of every shipped platform x cfg x log names existing modules")
+    ctx.rule("R7", "codec: MESSAGE_ENCODING is latin-1 and every encode/decode in the library names it")
+    verb_table(ctx, repo)
+    round_trips(ctx, repo)
+    framing(ctx, repo)
+    text_parts(ctx, repo)
+    codec(ctx, repo)
+    from ..packs import tables
+    files_roundtrip_names(ctx, repo, tables(repo), rule="R6")
+    ctx.exhaustive = False
+    ctx.assume("struct.pack/unpack semantics as modelled in vlib.symbytes (byte order, field sizes via struct.calcsize)")
+    ctx.note("Not decided: truncated/malformed datagrams; values outside the struct field ranges; identifiers that themselves contain framing tags.")
+    ctx.trusted += ["re._parser (regex AST of the constant pattern)", "vlib.symbytes struct model"]
